@@ -170,6 +170,25 @@ def run(ctx):
         t = Bed6([x[0] for x in rows], np.array([x[1] for x in rows]), np.array([x[2] for x in rows]), ["n%d" % i for i in range(len(rows))], np.zeros(len(rows), dtype=int), [r.choice("+-") for _ in rows])
         return g, t
 
+    def written_bytes(t, suffix):
+        pth = ctx.path("c20w" + suffix)
+        with bnp.open(pth, "w") as f:
+            f.write(t)
+        return open(pth, "rb").read()
+
+    VCF_TEXT = "##fileformat=VCFv4.2\n#CHROM\tPOS\tID\tREF\tALT\tQUAL\tFILTER\tINFO\n"
+
+    def eager_vcf(r):
+        pth = ctx.path("c20e.vcf")
+        with open(pth, "w") as f:
+            f.write(VCF_TEXT + "".join("chr1\t%d\trs%d\tA\tC\t.\tPASS\t.\n" % (10 + 7 * i + r.randint(0, 3), i) for i in range(r.randint(1, 5))))
+        return (bnp.open(pth, lazy=False).read(),)
+
+    def vcf_entries(r):
+        n_ = r.randint(1, 4)
+        from bionumpy.datatypes import VCFEntry
+        return (VCFEntry(["chr1"] * n_, np.array([5 + 3 * i for i in range(n_)], dtype=int), ["rs%d" % i for i in range(n_)], ["A"] * n_, ["C"] * n_, ["."] * n_, ["PASS"] * n_, ["."] * n_),)
+
     pwm = PWM(np.log(np.array([[0.5, 0.25], [0.25, 0.25], [0.125, 0.25], [0.125, 0.25]])), "ACGT")
 
     # registry: name -> (argument factory, function)
@@ -228,6 +247,11 @@ def run(ctx):
         "GenomicArray ufunc": (genome_and_iv, lambda g, t: (g.get_intervals(t).get_pileup() + 1) * 2 > 2),
         "table[index]": (lambda r: (sorted_iv(r),), lambda a: a[::-1][: 2]),
         "np.concatenate(tables)": (lambda r: (sorted_iv(r), sorted_iv(r)), lambda a, b: np.concatenate([a, b])),
+        "write(eager VCF table)": (eager_vcf, lambda t: written_bytes(t, ".vcf")),
+        "write(eager BED table)": (lambda r: (sorted_iv(r),), lambda t: written_bytes(t, ".bed")),
+        "write(in-memory VCF entries)": (vcf_entries, lambda t: written_bytes(t, ".vcf")),
+        "Genome.from_dict(sizes).with_ignored_added": (lambda r: ({"chr1": 50, "chr2": 30, "chrM": 7},), lambda sizes: sorted(bnp.Genome.from_dict(sizes).with_ignored_added([r_name for r_name in ("chrM",)]).get_genome_context().chrom_sizes.items())),
+        "Genome.with_ignored_added(genome reused)": (lambda r: (bnp.Genome.from_dict({"chr1": 50, "chr2": 30, "chrM": 7, "chrX": 5}),), lambda g: [sorted(g.with_ignored_added(["chrM"]).get_genome_context().chrom_sizes.items()), sorted(g.with_ignored_added(["chrX"]).get_genome_context().chrom_sizes.items()), sorted(g.get_genome_context().chrom_sizes.items())]),
         "table.sort_by": (lambda r: (sorted_iv(r),), lambda a: a.sort_by("stop")),
         "bnp.replace": (lambda r: (sorted_iv(r),), lambda a: bnp.replace(a, start=np.asarray(a.start) + 1)),
         "table.add_fields": (lambda r: (sorted_iv(r),), lambda a: a.add_fields({"extra": [1] * len(a)}, field_type_map={"extra": int})),
